@@ -32,6 +32,9 @@ pub enum Val {
     OptSome(String),
     Bytes(Vec<u8>),
     ByteBuf(Vec<u8>),
+    OptBytes(Vec<u8>),
+    OptI64(i64),
+    OptBool(bool),
 }
 
 #[derive(Clone, Debug, PartialEq, Serialize, Deserialize)]
@@ -41,7 +44,7 @@ pub struct Case {
     pub opts: SerOpts,
 }
 
-pub const POS_NAMES: [&str; 12] = [
+pub const POS_NAMES: [&str; 14] = [
     "root",
     "seq_item",
     "nested_seq_item",
@@ -54,8 +57,10 @@ pub const POS_NAMES: [&str; 12] = [
     "newtype_variant",
     "tuple_variant",
     "seq_of_map_value",
+    "seq_of_map_key",
+    "nested_map_key",
 ];
-const KEY_POS: [u8; 2] = [4, 7];
+const KEY_POS: [u8; 4] = [4, 7, 12, 13];
 
 #[derive(Clone, Debug, PartialEq, Serialize, Deserialize)]
 struct S<T> {
@@ -160,6 +165,18 @@ where
     match pos {
         4 => rt(&m, o),
         7 => rt(&FlowMap(m), o),
+        12 => {
+            // second entry of a mapping that is a sequence item, and first entry of the next one
+            let mut m2 = BTreeMap::new();
+            m2.insert(v.clone(), vec![1i32]);
+            rt(&vec![m2.clone(), m2], o)
+        }
+        13 => {
+            let mut outer = BTreeMap::new();
+            outer.insert("o".to_string(), m.clone());
+            outer.insert("p".to_string(), m);
+            rt(&outer, o)
+        }
         _ => unreachable!(),
     }
 }
@@ -257,6 +274,9 @@ impl C12 {
             Val::OptSome(s) => at_pos(&Some(s.clone()), c.pos, o),
             Val::Bytes(b) => at_pos(b, c.pos, o),
             Val::ByteBuf(b) => at_pos(&serde_bytes::ByteBuf::from(b.clone()), c.pos, o),
+            Val::OptBytes(b) => at_pos(&Some(serde_bytes::ByteBuf::from(b.clone())), c.pos, o),
+            Val::OptI64(v) => at_pos(&Some(*v), c.pos, o),
+            Val::OptBool(v) => at_pos(&Some(*v), c.pos, o),
         }
     }
 }
@@ -268,7 +288,7 @@ fn valid_case(c: &Case) -> bool {
     }
     !matches!(
         c.val,
-        Val::F32(_) | Val::F64(_) | Val::Unit | Val::OptNone | Val::OptSome(_) | Val::Bytes(_) | Val::ByteBuf(_)
+        Val::F32(_) | Val::F64(_) | Val::Unit | Val::OptNone | Val::OptSome(_) | Val::Bytes(_) | Val::ByteBuf(_) | Val::OptBytes(_) | Val::OptI64(_) | Val::OptBool(_)
     )
 }
 
@@ -523,12 +543,66 @@ pub fn run(ctx: &Ctx) -> i32 {
         acc = acc.merge(acc3);
         acc.notes.insert("strings_block_pass".into(), json!({"count": sp3.len(), "alphabet": BLOCK_ALPHABET, "max_len": ctx.tier.pick(6, 8), "options": nb, "positions": n_pos}));
     }
+    // long-string pass: every string up to 2 characters over the whole alphabet glued to text longer than the fold
+    // width (before / after it, with and without a line break in between), so that the "long" branches of the
+    // style selection see every character class
+    {
+        let sp4 = StrSpace::new(ALPHABET, ctx.tier.pick(1, 2));
+        let lopts = [SerOpts { wrap: 1, ..SerOpts::default() }, SerOpts { wrap: 1, indent: 3, compact: true, ..SerOpts::default() }, SerOpts::default()];
+        let nl = lopts.len() as u64;
+        const SHAPES: u64 = 5;
+        let n4 = sp4.len() * SHAPES * n_pos * nl;
+        let acc4 = run_indexed(&p, n4, |i| {
+            let o = lopts[(i % nl) as usize];
+            let r = i / nl;
+            let pos = positions[(r % n_pos) as usize];
+            let r = r / n_pos;
+            let shape = r % SHAPES;
+            let s = sp4.get(r / SHAPES);
+            // under the default options the fold width is 80 characters
+            let body = if o.wrap == 1 { "aaaaa".to_string() } else { "a".repeat(81) };
+            let v = match shape {
+                0 => format!("{}\n{}", body, s),
+                1 => format!("{}\n{}", s, body),
+                2 => format!("{}{}", body, s),
+                3 => format!("{}{}", s, body),
+                _ => format!("{}\n{}\n{}", body, s, body),
+            };
+            Some(Case { val: Val::Str(v), pos, opts: o })
+        });
+        acc = acc.merge(acc4);
+        acc.notes.insert("strings_long_pass".into(), json!({"count": sp4.len() * SHAPES, "glued_len": ctx.tier.pick(1, 2), "shapes": ["long LF s", "s LF long", "long s", "s long", "long LF s LF long"], "options": nl, "positions": n_pos}));
+    }
+    // strings around the 1024-character limit of implicit keys, in every position
+    {
+        let mut cases = Vec::new();
+        for n in [1021usize, 1022, 1023, 1024, 1025, 1026, 1027, 2048] {
+            for tail in ["", ":", " #", "\"", "é"] {
+                for &pos in &positions {
+                    for o in [SerOpts::default(), SerOpts { indent: 4, ..SerOpts::default() }, SerOpts { compact: true, ..SerOpts::default() }, SerOpts::from_bits(1)] {
+                        cases.push(Case { val: Val::Str(format!("{}{}", "k".repeat(n), tail)), pos, opts: o });
+                    }
+                }
+            }
+        }
+        acc.notes.insert("strings_key_limit_pass".into(), json!(cases.len()));
+        acc = acc.merge(run_list(&p, &cases));
+    }
     // other scalar kinds x positions x (flag) options
     let mut others: Vec<Val> = int_vals();
     others.extend([Val::Bool(true), Val::Bool(false), Val::Unit, Val::OptNone]);
     for s in ["", "a", "null", "~", " ", "1"] {
         others.push(Val::OptSome(s.to_string()));
     }
+    for s in ALPHABET.iter().chain(LOOKALIKE_WORDS.iter()) {
+        if !["a", "~", " ", "1", "null"].contains(s) {
+            others.push(Val::OptSome(s.to_string()));
+        }
+    }
+    for b in [vec![], vec![0u8], vec![b'~'], b"null".to_vec(), vec![0xff, 0x00, 0x7f]] {
+        others.push(Val::OptBytes(b));
+    }
+    others.extend([Val::OptI64(0), Val::OptI64(i64::MIN), Val::OptBool(false), Val::OptBool(true)]);
     for a in ALPHABET {
         let mut cs = a.chars();
         let c = cs.next().unwrap();
